@@ -76,12 +76,17 @@ pub fn render_pair(c: &dyn ValueObj, s: &dyn ValueObj) -> (ValR, ValR) {
     let is_unit_stamp = s.as_any().downcast_ref::<super::world::ZStamp>().is_some();
     return (ValR::RChk(RChk { kind: z.kind, tag: 0 }), if is_unit_stamp { ValR::RStamp(RStamp { serial: z.serial, proj: None, real: super::world::RealStamp::None }) } else { render_val(s) });
   }
+  if let Some(z) = c.as_any().downcast_ref::<super::world::ZOChk>() {
+    let is_unit_stamp = s.as_any().downcast_ref::<super::world::ZStamp>().is_some();
+    return (ValR::OChk(OChk { kind: z.kind, tag: 0 }), if is_unit_stamp { ValR::OStamp(OStamp { serial: z.serial, val: super::world::OVal::Unit }) } else { render_val(s) });
+  }
   (render_val(c), render_val(s))
 }
 
 pub fn render_val(v: &dyn ValueObj) -> ValR {
   let a = v.as_any();
   if let Some(z) = a.downcast_ref::<super::world::ZChk>() { return ValR::RChk(RChk { kind: z.kind, tag: 0 }); }
+  if let Some(z) = a.downcast_ref::<super::world::ZOChk>() { return ValR::OChk(OChk { kind: z.kind, tag: 0 }); }
   if let Some(x) = a.downcast_ref::<RStamp>() { return ValR::RStamp(*x); }
   if let Some(x) = a.downcast_ref::<RChk>() { return ValR::RChk(*x); }
   if let Some(x) = a.downcast_ref::<OStamp>() { return ValR::OStamp(*x); }
